@@ -608,6 +608,13 @@ def GenFull.marshal (g : GenFull) (e : Int) : String := g.base.string e
 
 /-! ## specification for C05 / C12 -/
 
+/-- the documented trait shape: the line of the lowest value (its alphabetically first name)
+declares every trait column of the type -/
+def FirstLineDeclares (f : FileDef) (t : TypeDecl) : Prop :=
+  ∀ c ∈ f.consts, c.ty = t.name →
+    (∀ c' ∈ f.consts, c'.ty = t.name → c.val < c'.val ∨ (c.val = c'.val ∧ c.name ≤ c'.name)) →
+    c.tvals.length = t.cols.length
+
 /-- the trait constant written on the PRIMARY definition line of value `e`, column `j` -/
 def DeclaredTrait (f : FileDef) (t : TypeDecl) (j : Nat) (e : Int) (d : Dyn) : Prop :=
   ∃ c ∈ f.consts, c.ty = t.name ∧ c.val = e ∧ IsPrimary f t.name e c.name ∧
